@@ -75,6 +75,10 @@ pub struct MockIo {
     /// raise this error (once) when `delivered` reaches the offset
     pub err_at: Option<(usize, io::ErrorKind)>,
     pub err_raised: bool,
+    /// how the transport fills the caller's ReadBuf: 0 = `put_slice` (touches only what it fills),
+    /// 1 = the adapter idiom `initialize_unfilled()`, copy, `advance(n)` (initialises the whole
+    /// spare capacity, also on the end-of-stream read), 2 = `initialize_unfilled_to(n + 7)`
+    pub read_style: u8,
     // write side
     pub wire: Vec<u8>,
     pub wscript: std::collections::VecDeque<WStep>,
@@ -119,7 +123,21 @@ impl AsyncRead for MockIo {
                         n = n.min(at - this.delivered);
                     }
                 }
-                buf.put_slice(&this.stream[this.delivered..this.delivered + n]);
+                let data = &this.stream[this.delivered..this.delivered + n];
+                match this.read_style {
+                    1 => {
+                        let dst = buf.initialize_unfilled();
+                        dst[..n].copy_from_slice(data);
+                        buf.advance(n);
+                    }
+                    2 => {
+                        let k = (n + 7).min(buf.remaining());
+                        let dst = buf.initialize_unfilled_to(k);
+                        dst[..n].copy_from_slice(data);
+                        buf.advance(n);
+                    }
+                    _ => buf.put_slice(data),
+                }
                 this.delivered += n;
                 if n == 0 && this.delivered == this.stream.len() {
                     this.events.push(Ev::ReadEof);
